@@ -6,7 +6,9 @@ import ast
 
 from ..callgraph import get_callgraph
 from ..corpus import (
+    AnchorMissing,
     Corpus,
+    Unsupported,
     FunctionInfo,
     ancestors,
     calls_in,
@@ -513,7 +515,11 @@ def _loop_variant(w: ast.While, fi: FunctionInfo, corpus: Corpus) -> str | None:
 
 @rule("C01.R6")
 def r6_yaml_narrowing(corpus: Corpus, rep: Report, tier: str):
-    rep.rule("C01.R6", "values produced by yaml.safe_load are isinstance-narrowed before attribute/subscript/iteration use")
+    rep.rule(
+        "C01.R6",
+        "values produced by yaml.safe_load, and values read out of them, are isinstance-narrowed (or validated as a mapping) "
+        "before attribute/subscript/iteration/**-unpack use",
+    )
     n = 0
     for fi in corpus.all_functions():
         if fi.is_lambda:
@@ -525,22 +531,194 @@ def r6_yaml_narrowing(corpus: Corpus, rep: Report, tier: str):
                 continue
             n += 1
             var = st.targets[0].id
-            _check_narrowed(fi, var, st, rep)
-    # merge_file_level: topmatter values
+            _check_narrowed(corpus, fi, var, st, fi.node, rep)
+            n += _check_derived(corpus, fi, {var}, rep)
+    # merge_file_level: the front matter arrives as a parameter (a dict by the callers' narrowing); what is read
+    # out of it is YAML_ANY again
     mfl = corpus.func("config.main:merge_file_level")
-    for st in walk_local(mfl.node):
-        if isinstance(st, ast.Assign) and isinstance(st.targets[0], ast.Name) and isinstance(st.value, ast.Call) and unparse(st.value.func) == "topmatter.get":
-            n += 1
-            _check_narrowed(mfl, st.targets[0].id, st, rep)
-    if n < 4:
-        rep.error("C01.R6", f"expected at least 4 YAML load sites, found {n}")
+    if "topmatter" not in mfl.params:
+        rep.error("C01.R6", f"{mfl.fq}: the front-matter parameter `topmatter` is gone")
+    n += _check_derived(corpus, mfl, {"topmatter"}, rep)
+    if n < 6:
+        rep.error("C01.R6", f"expected at least 6 YAML-valued locals (4 load sites, the `myst` table and its values), found {n}")
 
 
-def _check_narrowed(fi: FunctionInfo, var: str, assign: ast.stmt, rep: Report) -> None:
+def _check_derived(corpus: Corpus, fi: FunctionInfo, containers: set[str], rep: Report) -> int:
+    """Locals that receive a value read OUT of a YAML container (element, `.get`, loop over items/values): each is
+    YAML_ANY again.  Aliases of a container (``updates = myst``) are containers too."""
+    seen: set[tuple[str, int]] = set()
+    work = list(containers)
+    done = set()
+    count = 0
+    while work:
+        c = work.pop()
+        if c in done:
+            continue
+        done.add(c)
+
+        def reads_out(e: ast.expr) -> bool:
+            if isinstance(e, ast.Subscript) and isinstance(e.value, ast.Name) and e.value.id == c and isinstance(e.ctx, ast.Load):
+                return True
+            return isinstance(e, ast.Call) and isinstance(e.func, ast.Attribute) and isinstance(e.func.value, ast.Name) and e.func.value.id == c and e.func.attr in ("get", "pop", "setdefault")
+
+        for node in fi.local_nodes():
+            new: list[tuple[str, ast.AST, ast.AST]] = []  # (var, defining node, scope)
+            if isinstance(node, ast.Assign) and len(node.targets) == 1 and isinstance(node.targets[0], ast.Name):
+                if reads_out(node.value):
+                    new.append((node.targets[0].id, node, fi.node))
+                elif isinstance(node.value, ast.Name) and node.value.id == c and node.targets[0].id != c:
+                    work.append(node.targets[0].id)  # alias (the aliasing itself is judged as a use of `c`)
+            elif isinstance(node, (ast.For, ast.comprehension)):
+                it, tg = node.iter, node.target
+                scope = node if isinstance(node, ast.For) else parent(node)
+                if isinstance(it, ast.Call) and isinstance(it.func, ast.Attribute) and isinstance(it.func.value, ast.Name) and it.func.value.id == c and not it.args:
+                    if it.func.attr == "items" and isinstance(tg, ast.Tuple) and len(tg.elts) == 2 and isinstance(tg.elts[1], ast.Name):
+                        new.append((tg.elts[1].id, node, scope))
+                    elif it.func.attr == "values" and isinstance(tg, ast.Name):
+                        new.append((tg.id, node, scope))
+            for var, dnode, scope in new:
+                if (var, id(dnode)) in seen:
+                    continue
+                seen.add((var, id(dnode)))
+                count += 1
+                _check_narrowed(corpus, fi, var, dnode, scope, rep)
+                if var not in done:
+                    work.append(var)
+    return count
+
+
+_MAPPING_TYPES = ("dict", "Mapping", "MutableMapping", "OrderedDict")
+
+
+def _validator_is_mapping(e: ast.expr) -> bool:
+    """The validator expression rejects everything that is not a mapping (``**value`` is then safe)."""
+    if isinstance(e, ast.List):
+        return any(_validator_is_mapping(x) for x in e.elts)
+    if not isinstance(e, ast.Call):
+        return False
+    name = (dotted(e.func) or "").split(".")[-1]
+    if name == "instance_of" and len(e.args) == 1:
+        t = e.args[0]
+        ts = t.elts if isinstance(t, ast.Tuple) else [t]
+        return bool(ts) and all((dotted(x) or "").split(".")[-1] in _MAPPING_TYPES for x in ts)
+    if name == "deep_mapping":
+        mv = e.args[2] if len(e.args) > 2 else None
+        for k in e.keywords:
+            if k.arg == "mapping_validator":
+                mv = k.value
+        return mv is not None and _validator_is_mapping(mv)
+    return False
+
+
+def _config_fields(corpus: Corpus) -> dict[str, dict[str, ast.expr]]:
+    """name -> metadata dict (key -> value expression) of every MdParserConfig field."""
+
+    def compute():
+        ci = corpus.cls("config.main:MdParserConfig")
+        out: dict[str, dict[str, ast.expr]] = {}
+        for st in ci.node.body:
+            if not (isinstance(st, ast.AnnAssign) and isinstance(st.target, ast.Name) and isinstance(st.value, ast.Call)):
+                continue
+            if (dotted(st.value.func) or "").split(".")[-1] != "field":
+                continue
+            md = None
+            for k in st.value.keywords:
+                if k.arg == "metadata":
+                    md = k.value
+            meta: dict[str, ast.expr] = {}
+            if isinstance(md, ast.Dict):
+                for k, v in zip(md.keys, md.values):
+                    if isinstance(k, ast.Constant) and isinstance(k.value, str):
+                        meta[k.value] = v
+            elif md is not None:
+                raise Unsupported(f"MdParserConfig.{st.target.id}: metadata is not a dict literal")
+            out[st.target.id] = meta
+        if len(out) < 20:
+            raise AnchorMissing(f"MdParserConfig: only {len(out)} dataclass fields found")
+        return out
+
+    return corpus.cache("c01-config-fields", compute)
+
+
+def _validated_as_mapping(corpus: Corpus, fi: FunctionInfo, cfg, var: str, use: ast.AST) -> tuple[str, str]:
+    """('ok'|'no'|'violation'|'error', text): the use of the YAML value `var` happens only after
+    ``validate_field(inst, FIELD, var)`` completed normally, for fields whose validator admits mappings only."""
+    U = cfg.stmt_of(use)
+    cands = []
+    for c in fi.local_nodes():
+        if isinstance(c, ast.Call) and fi.module.resolve(dotted(c.func) or "").split(".")[-1] == "validate_field" and len(c.args) == 3:
+            if isinstance(c.args[2], ast.Name) and c.args[2].id == var:
+                cands.append(c)
+    for c in cands:
+        V = cfg.stmt_of(c)
+        if V is U or not cfg.dominates(V, U):
+            continue
+        # every handler that catches a validation failure must not continue to the use
+        leak = False
+        for a in ancestors(c):
+            if isinstance(a, (ast.FunctionDef, ast.Lambda)):
+                break
+            if isinstance(a, ast.Try) and any(c in ast.walk(s) for s in a.body):
+                for h in a.handlers:
+                    if cfg.paths_avoiding(("H", h), U, lambda n: n is V):
+                        leak = True
+        if leak:
+            continue
+        # the value must not be re-bound between the validation and the use
+        rebound = False
+        for n in fi.local_nodes():
+            if isinstance(n, ast.Name) and n.id == var and isinstance(n.ctx, ast.Store):
+                R = cfg.stmt_of(n)
+                if R is U and isinstance(R, (ast.Assign, ast.AugAssign, ast.AnnAssign)):
+                    starts = list(cfg.succ.get(R, []))  # the right-hand side is evaluated before the store
+                else:
+                    starts = [R]
+                if any(s is U or cfg.paths_avoiding(s, U, lambda m: m is V) for s in starts if s is not V):
+                    rebound = True
+        if rebound:
+            continue
+        # which fields reach the use?  (a test on the field's metadata selects them)
+        ftext = unparse(c.args[1])
+        flag = None
+        unknown_selector = None
+        for test, pol in cfg.guards(U):
+            txt = unparse(test)
+            sel = None
+            if isinstance(test, ast.Call) and unparse(test.func) == f"{ftext}.metadata.get" and test.args and isinstance(test.args[0], ast.Constant):
+                sel = test.args[0].value
+            elif isinstance(test, ast.Subscript) and unparse(test.value) == f"{ftext}.metadata" and isinstance(test.slice, ast.Constant):
+                sel = test.slice.value
+            if sel is not None and pol and (not isinstance(test, ast.Call) or len(test.args) == 1 or (isinstance(test.args[1], ast.Constant) and not test.args[1].value)):
+                flag = sel
+            elif ftext in {n.id for n in ast.walk(test) if isinstance(n, ast.Name)} or any(isinstance(n, ast.Name) and n.id == var for n in ast.walk(test)):
+                if not (isinstance(test, ast.Call) and dotted(test.func) == "isinstance"):
+                    unknown_selector = txt
+        fields = _config_fields(corpus)
+        if flag is not None:
+            chosen = {
+                f: m for f, m in fields.items() if flag in m and not (isinstance(m[flag], ast.Constant) and not m[flag].value)
+            }
+            if not chosen:
+                return ("error", f"no MdParserConfig field carries metadata[{flag!r}]")
+        elif unknown_selector is not None:
+            return ("error", f"the use is reached under `{unknown_selector}`, which is not a recognised test on the field's metadata")
+        else:
+            chosen = fields
+        bad = [f for f, m in chosen.items() if "validator" not in m or not _validator_is_mapping(m["validator"])]
+        which = f"fields with metadata[{flag!r}]" if flag is not None else "all fields"
+        if bad:
+            return ("violation", f"validated by validate_field, but the validator of `{bad[0]}` ({which}) admits values that are not mappings")
+        return ("ok", f"after validate_field succeeded; {which} ({', '.join(sorted(chosen))}) are validated as mappings")
+    return ("no", "")
+
+
+def _check_narrowed(corpus: Corpus, fi: FunctionInfo, var: str, assign: ast.AST, scope: ast.AST, rep: Report) -> None:
     cfg = get_cfg(fi)
     uses = []
-    for n in walk_local(fi.node):
-        if getattr(n, "lineno", 0) < assign.lineno:
+    line0 = getattr(assign, "lineno", None) or getattr(getattr(assign, "iter", None), "lineno", 0)
+    nodes = walk_local(scope) if scope is not fi.node else fi.local_nodes()
+    for n in nodes:
+        if getattr(n, "lineno", 0) < line0:
             continue
         risky = None
         if isinstance(n, ast.Attribute) and isinstance(n.value, ast.Name) and n.value.id == var and isinstance(parent(n), ast.Call) and parent(n).func is n:
@@ -551,33 +729,52 @@ def _check_narrowed(fi: FunctionInfo, var: str, assign: ast.stmt, rep: Report) -
             risky = n.iter
         elif isinstance(n, ast.keyword) and n.arg is None and isinstance(n.value, ast.Name) and n.value.id == var:
             risky = n.value
+        elif isinstance(n, ast.Starred) and isinstance(n.value, ast.Name) and n.value.id == var and isinstance(n.ctx, ast.Load):
+            risky = n.value
         elif isinstance(n, ast.Dict) and any(k is None and isinstance(v, ast.Name) and v.id == var for k, v in zip(n.keys, n.values)):
             risky = n
         elif isinstance(n, ast.Assign) and isinstance(n.value, ast.Name) and n.value.id == var and n is not assign:
             risky = n.value  # aliasing: the alias is used un-narrowed later (updates = myst)
         if risky is not None:
             uses.append(risky)
-    k0 = f"{fi.fq}|{var} = {short(assign.value, 50)}"
+    if isinstance(assign, ast.Assign):
+        k0 = f"{fi.fq}|{var} = {short(assign.value, 50)}"
+    else:
+        k0 = f"{fi.fq}|{var} in {short(assign.iter, 50)}"  # loop / comprehension variable
+    site0 = fi.module.site(assign if hasattr(assign, "lineno") else assign.iter)
     if not uses:
-        rep.ok("C01.R6", k0, fi.module.site(assign), "value is only returned/tested")
+        rep.ok("C01.R6", k0, site0, "value is only returned/tested/passed on")
         return
     bad = []
+    how = set()
     for u in uses:
         st = cfg.stmt_of(u)
         gs = cfg.guards(st)
         ok = any(pol and isinstance(t, ast.Call) and dotted(t.func) == "isinstance" and t.args and unparse(t.args[0]) == var for t, pol in gs)
-        if not ok:
-            bad.append(u)
+        if ok:
+            how.add(f"isinstance({var}, ...)")
+            continue
+        is_mapping_use = isinstance(u, ast.Dict) or isinstance(parent(u), ast.keyword)
+        verdict, text = _validated_as_mapping(corpus, fi, cfg, var, u) if is_mapping_use else ("no", "")
+        if verdict == "ok":
+            how.add(text)
+        elif verdict == "error":
+            rep.error("C01.R6", f"{fi.module.site(u)}: use of the YAML value `{var}`: {text}")
+            return
+        else:
+            bad.append((u, text))
     if bad:
-        u = bad[0]
+        u, text = bad[0]
+        shown = parent(u) if not isinstance(u, (ast.Name, ast.Dict)) else u
         rep.violation(
             "C01.R6",
             k0,
             fi.module.site(u),
-            f"`{short(parent(u) if not isinstance(u, ast.Name) else u, 60)}` uses the YAML value `{var}` (dict, list, scalar or None) without a dominating isinstance narrowing",
+            f"`{short(shown, 60)}` uses the YAML value `{var}` (dict, list, scalar or None) without a dominating isinstance narrowing"
+            + (f" ({text})" if text else " or successful mapping validation"),
         )
     else:
-        rep.ok("C01.R6", k0, fi.module.site(assign), f"{len(uses)} use(s), all dominated by isinstance({var}, ...)")
+        rep.ok("C01.R6", k0, site0, f"{len(uses)} use(s), all dominated by " + "; ".join(sorted(how)))
 
 
 RULES = [r1_failure_mode_closure, r2_token_line, r3_html_attr_none, r4_reentry_guards, r5_loop_progress, r6_yaml_narrowing]
